@@ -61,15 +61,16 @@ Cases == {[kind |-> "key", ser |-> s, shape |-> sh, pwd |-> "none"] : s \in {"pr
          {[kind |-> "wrongpwd", ser |-> "pkcs8", shape |-> "plain", pwd |-> p] : p \in {"ascii", "utf8", "long"}} \cup
          {[kind |-> "loader", ser |-> l, shape |-> m, pwd |-> "none"] :
             l \in {"X509KeyPair", "GMX509KeyPairsSingle", "GMX509KeyPairs", "LoadX509KeyPair", "LoadGMX509KeyPair", "LoadGMX509KeyPairs"},
+            \* match_prefixed: the matching key behind other PEM blocks (EC PARAMETERS, the certificate) in the key input;
             \* grafted: another private scalar in a PKCS#8 file whose optional public-key field holds the certificate's point;
             \* negated: the key n-d, whose point has the same x; match_chain: the certificate PEM holds the leaf followed by
             \* its CA, the key is the leaf's; chain_cakey: the same PEM with the CA's key (it matches a certificate, not the leaf)
-            m \in {"match", "otherkey", "swapped", "negated", "match_chain", "chain_cakey", "grafted"}}
+            m \in {"match", "otherkey", "swapped", "negated", "match_chain", "chain_cakey", "grafted", "match_prefixed"}}
 Expect(x) == CASE x.kind \in {"key", "sig", "cipher"} -> [roundtrip |-> TRUE]
                \* decoding is a function of (bytes, password) alone: the right password opens the key before and after any
                \* number of attempts with other passwords, and those fail whether or not the right one was used before
                [] x.kind = "wrongpwd" -> [error |-> TRUE, right_opens_before |-> TRUE, right_opens_after |-> TRUE, error_on_fresh_file |-> TRUE]
-               [] x.kind = "loader" -> [accept |-> x.shape \in {"match", "match_chain"}]
+               [] x.kind = "loader" -> [accept |-> x.shape \in {"match", "match_chain", "match_prefixed"}]
 Init == c \in Cases /\ done = FALSE
 Next == /\ ~done /\ done' = TRUE /\ c' = c /\ PrintT(<<"CASE", ToJson([case |-> c, expect |-> Expect(c)])>>)
 Spec == Init /\ [][Next]_<<c, done>>
